@@ -88,9 +88,9 @@ impl FrameKind for AmqpFrameKind {
 // Deepest nesting of arrays / tables inside a field table that is handed to the parser.
 const MAX_FIELD_NESTING: usize = 32;
 
-// The part of a frame that starts with a field table (at its 4-byte length), for the two
-// kinds of frame a server sends that carry one: a content header with a `headers` property
-// and Connection.Start (server-properties).
+// The part of a frame that starts with a field table (at its 4-byte length), for every
+// kind of frame the parser reads one from: a content header with a `headers` property,
+// Connection.Start (server-properties), and the methods of a client that have arguments.
 fn field_table_of(frame: &[u8]) -> Option<&[u8]> {
     if frame.len() < 8 {
         return None;
@@ -99,13 +99,35 @@ fn field_table_of(frame: &[u8]) -> Option<&[u8]> {
     match frame[0] {
         // method frame: class-id 10, method-id 10, version-major, version-minor, table
         1 if payload.len() >= 6 && payload[..4] == [0, 10, 0, 10] => Some(&payload[6..]),
+        // the methods only a client may send that carry a table: the parser reads them all
+        // the same (they are refused afterwards). (class, method, short strings in front
+        // of the table behind the 2-byte ticket, bytes of flags between those and the table)
+        1 if payload.len() >= 4 => {
+            let ids = (
+                u16::from(payload[0]) << 8 | u16::from(payload[1]),
+                u16::from(payload[2]) << 8 | u16::from(payload[3]),
+            );
+            let (ticket, strings, flags) = match ids {
+                (10, 11) => (0, 0, 0),
+                (40, 10) => (2, 2, 1),
+                (40, 30) | (40, 40) | (50, 20) => (2, 3, 1),
+                (50, 10) => (2, 1, 1),
+                (50, 50) => (2, 3, 0),
+                (60, 20) => (2, 2, 1),
+                _ => return None,
+            };
+            let mut pos = 4 + ticket;
+            for _ in 0..strings {
+                pos += 1 + usize::from(*payload.get(pos)?);
+            }
+            payload.get(pos + flags..)
+        }
         // content header: class-id, weight, body-size, property flags, then the
         // properties that are present, in order: content-type, content-encoding, headers
         2 if payload.len() >= 14 => {
             let flags = u16::from(payload[12]) << 8 | u16::from(payload[13]);
-            // (bit 0 would announce a second flags word, which nobody sends; leave such a
-            // header to the parser alone)
-            if flags & 0x2000 == 0 || flags & 0x0001 != 0 {
+            // (the parser takes no notice of bit 0, the announcement of a second flags word)
+            if flags & 0x2000 == 0 {
                 return None;
             }
             let mut pos = 14;
